@@ -58,15 +58,32 @@ func cmdCRtGuards(c *ctx) {
 				b.WriteString("}\n")
 			}
 			data := fmt.Sprintf("buf.m%d", len(top.members)-1)
+			// declaration order: the members of _mslBufferSizes are named after the global's handle, not after its position
+			// among the globals that own a run-time-sized array
+			order := (ei + pi + 1) % 3
+			bufDecl := "@group(0) @binding(0) var<storage, read_write> buf: Top;\n"
 			if bare {
-				fmt.Fprintf(&b, "@group(0) @binding(0) var<storage, read_write> buf: array<%s>;\n@group(0) @binding(1) var<storage, read> inp: array<u32>;\n", e.wgsl())
+				bufDecl = fmt.Sprintf("@group(0) @binding(0) var<storage, read_write> buf: array<%s>;\n", e.wgsl())
 				data = "buf"
 			} else {
 				b.WriteString("struct Top {\n")
 				for i, m := range top.members {
 					fmt.Fprintf(&b, "  m%d: %s,\n", i, m.ty.wgsl())
 				}
-				b.WriteString("}\n@group(0) @binding(0) var<storage, read_write> buf: Top;\n@group(0) @binding(1) var<storage, read> inp: array<u32>;\n")
+				b.WriteString("}\n")
+			}
+			inpDecl := "@group(0) @binding(1) var<storage, read> inp: array<u32>;\n"
+			uniDecl := "@group(0) @binding(2) var<uniform> uni: vec4<u32>;\n"
+			bufHandle, inpHandle := "0", "1"
+			switch order {
+			case 0:
+				b.WriteString(bufDecl + inpDecl)
+			case 1:
+				b.WriteString(uniDecl + inpDecl + bufDecl)
+				bufHandle, inpHandle = "2", "1"
+			default:
+				b.WriteString(inpDecl + uniDecl + bufDecl)
+				bufHandle, inpHandle = "2", "0"
 			}
 			g := &c07gen{c: c}
 			p := g.path(e)
@@ -77,6 +94,9 @@ func cmdCRtGuards(c *ctx) {
 				body = fmt.Sprintf("  atomicStore(&%s, %s);\n  let r = atomicAdd(&%s, %s);\n", acc, lit, acc, lit)
 			} else if (ei+pi)%2 == 1 {
 				body = fmt.Sprintf("  let x = %s;\n  %s[1u]%s = x;\n", acc, data, p.wgsl)
+			}
+			if order != 0 {
+				body += "  let keep = uni.x;\n"
 			}
 			src := b.String() + "@compute @workgroup_size(1)\nfn main() {\n" + body + "}\n"
 			mod, res := frontEnd(src)
@@ -91,7 +111,7 @@ func cmdCRtGuards(c *ctx) {
 				o.BoundsCheckPolicies.Index = pol
 				var text string
 				r := guard("msl", func() error { t, _, err := msl.Compile(mod, o); text = t; return err })
-				tag := fmt.Sprintf("elem=%s prefix=%d policy=%s", strings.ReplaceAll(e.wgsl(), " ", ""), pi, polName(pol))
+				tag := fmt.Sprintf("elem=%s prefix=%d policy=%s order=%d", strings.ReplaceAll(e.wgsl(), " ", ""), pi, polName(pol), order)
 				if r.err != "" {
 					c.line("rows.txt", fmt.Sprintf("error %s | %s", oneLine(r.err), tag))
 					c.line("src.txt", q(src))
@@ -112,9 +132,25 @@ func cmdCRtGuards(c *ctx) {
 					c.line("text.txt", q(text))
 					continue
 				}
+				nbuf := 0
 				for _, m := range ms {
-					if m[1] != "0" {
-						continue // the guard of `inp` (global 1); `buf` is global 0
+					if m[1] == bufHandle {
+						nbuf++
+					} else if m[1] != inpHandle {
+						c.line("rows.txt", fmt.Sprintf("guard names _buffer_sizes.size%s, which is neither the accessed buffer (size%s) nor inp (size%s) | %s", m[1], bufHandle, inpHandle, tag))
+						c.line("src.txt", q(src))
+						c.line("text.txt", q(text))
+					}
+				}
+				// every access `buf…[inp[0]]` written in the body is bounded by buf's own length
+				if want := strings.Count(body, data+"[inp[0]]"); nbuf < want {
+					c.line("rows.txt", fmt.Sprintf("only %d of the %d accesses to the buffer are bounded by its own length _buffer_sizes.size%s | %s", nbuf, want, bufHandle, tag))
+					c.line("src.txt", q(src))
+					c.line("text.txt", q(text))
+				}
+				for _, m := range ms {
+					if m[1] != bufHandle {
+						continue // the guard of `inp`
 					}
 					c.line("rows.txt", fmt.Sprintf("guard off=%s esz=%s stride=%s want off=%d esz=%d stride=%d | %s", m[2], m[3], m[4], off, esz, stride, tag))
 					c.line("src.txt", q(src))
